@@ -323,8 +323,7 @@ func (e *Exec) execInstr(fr *Frame, b *ssa.BasicBlock, ins ssa.Instruction, st *
 		ln := scal(e.val(fr, x.Len))
 		cp := scal(e.val(fr, x.Cap))
 		e.oblige(st, "nopanic.makeslice", x.Pos(), and(le(intLit(0), ln), le(ln, cp)))
-		base := e.fresh("mk.base", SInt)
-		e.assume(lt(intLit(0), base))
+		base := e.allocAddr(st) // a fresh backing array: distinct from every array allocated before
 		sl := &SliceV{Ty: x.Type(), Base: base, Off: intLit(0), Len: ln, Cap: cp}
 		// zero-initialised contents: constant arrays per leaf
 		et := x.Type().Underlying().(*types.Slice).Elem()
